@@ -13,23 +13,31 @@ Proof. exact fix_total. Qed.
 Print Assumptions c16_total.
 
 (** Every emitted parameter is a receiver or a plain identifier (no [mut] / [ref] / [@]); the identifiers
-    are pairwise distinct and none equals the function's own name; attributes and types are untouched
-    and the parameters stay in their positions. *)
+    are pairwise distinct and none equals the function's own name — as identifiers, i.e. with a raw
+    identifier [r#x] counted as the [x] it is to the compiler; attributes and types are untouched and the
+    parameters stay in their positions. *)
 Theorem c16_usable : forall fn_name l l',
   fix_fn_param_idents fn_name l = Ok l' ->
   Forall2 same_shape l l' /\
   forallb is_plain_ident_arg l' = true /\
-  NoDup (plain_names l') /\ ~ In fn_name (plain_names l').
+  NoDup (map unraw (plain_names l')) /\ ~ In (unraw fn_name) (map unraw (plain_names l')).
 Proof. exact fix_usable. Qed.
 Print Assumptions c16_usable.
 
+(** in particular they are distinct, and differ from the function's name, as strings *)
+Theorem c16_usable_strings : forall fn_name l l',
+  fix_fn_param_idents fn_name l = Ok l' ->
+  NoDup (plain_names l') /\ ~ In fn_name (plain_names l').
+Proof. exact fix_usable_strings. Qed.
+Print Assumptions c16_usable_strings.
+
 (** The rules: whenever the names the rules ask for (a plain binding's own name; the single lower-case
-    binding of a destructuring pattern) are distinct and differ from the function name, every such
-    parameter gets exactly that name; the others get some generated name. *)
+    binding of a destructuring pattern) are distinct identifiers and differ from the function name, every
+    such parameter gets exactly that name (a raw identifier stays raw); the others get some generated name. *)
 Theorem c16_rules_hold : forall fn_name l l',
   fix_fn_param_idents fn_name l = Ok l' ->
   let desired := map desired_name (filter is_typed l) in
-  NoDup (somes desired) -> ~ In fn_name (somes desired) ->
+  NoDup (map unraw (somes desired)) -> ~ In (unraw fn_name) (map unraw (somes desired)) ->
   rules_ok desired (plain_names l') = true.
 Proof. exact fix_rules. Qed.
 Print Assumptions c16_rules_hold.
